@@ -35,10 +35,21 @@ def run (j : Json) : R Json := do
     let tol ← fRat j "tol"
     let ptol ← fRat j "ptol"
     let T := lineTess ptol c1 c2
+    -- optional sorted node lists: the decidable hypotheses of the 1-D theorems, and whether the cells sent are `cells na / nb`
+    let na := (fRats j "na").toOption
+    let nb := (fRats j "nb").toOption
+    let hyp := match na, nb with
+      | some a, some b => Json.bool (hyp1d ptol a b)
+      | _, _ => Json.null
+    let sorted := match na, nb with
+      | some a, some b => Json.bool (decide (cells a = c1) && decide (cells b = c2))
+      | _, _ => Json.null
     pure (obj [("triples", ofList (fun (t : Triple) => Json.arr #[ofNat t.1, ofNat t.2.1, ofRat t.2.2]) T),
                ("avg", ofMat (match1d ptol .averaged c1 c2)),
                ("int", ofMat (match1d ptol .integrated c1 c2)),
-               ("none", ofMat (match1d ptol (.unscaled tol) c1 c2))])
+               ("none", ofMat (match1d ptol (.unscaled tol) c1 c2)),
+               ("other", ofMat (match1d ptol .other c1 c2)),
+               ("hyp", hyp), ("sorted", sorted)])
   | "tri2d" =>
     -- {"op":"tri2d","p1":[["x","y"],…],"t1":[[i,j,k],…],"p2":…,"t2":…,"tol":"t","want":"triples"|"matrices"}: triangulations / match_2d
     let ps ← do toPolys (← fRatss j "p1") (← fNatss j "t1")
@@ -46,7 +57,23 @@ def run (j : Json) : R Json := do
     let tol ← fRat j "tol"
     let want ← fStr j "want"
     let T := triTess ps qs            -- computed once; match2d mode ps qs = match2dFrom mode ps qs T by definition
-    if want == "triples" then pure (obj [("triples", ofTriples T)])
+    if want == "triples" then
+      pure (obj [("triples", ofTriples T), ("rowsOk", Json.bool (rowsOkFrom ps T)), ("colsOk", Json.bool (colsOkFrom qs T))])
+    else if want == "entry" then
+      -- match_2d as called: flags of the three checks + scaling name
+      let sn ← fBool j "simplexNew"
+      let so ← fBool j "simplexOld"
+      let cp ← fBool j "coplanar"
+      let mode ← do
+        let m ← fStr j "mode"
+        pure (match m with
+          | "averaged" => Scaling.averaged
+          | "integrated" => Scaling.integrated
+          | "none" => Scaling.unscaled tol
+          | _ => Scaling.other)
+      match match2dEntry sn so cp mode ps qs with
+      | none => pure (err "ValueError")
+      | some M => pure (obj [("M", ofMat M)])
     else pure (obj [("avg", ofMat (match2dFrom .averaged ps qs T)),
                     ("int", ofMat (match2dFrom .integrated ps qs T)),
                     ("none", ofMat (match2dFrom (.unscaled tol) ps qs T))])
